@@ -172,7 +172,7 @@ def run_perc(case):
     orc = Oracle()
     try:
         if case["mode"][0] == "tree":
-            for val, trail, _w in orc.enumerate(lambda: gcmpy.bond_percolate(G, phi), grid=b, max_leaves=6000):
+            for val, trail, _w in orc.enumerate(lambda: gcmpy.bond_percolate(G, phi), grid=b, max_leaves=case.get("max_leaves", 70000)):
                 n, ok = decode(val, N)
                 draws = [t[2] for t in trail if t[0] == "r"]
                 if len(draws) != len(es):
